@@ -1436,6 +1436,17 @@ def run_case(case, ctx: Ctx):
     if not all(bool(torch.isfinite(t).all()) for t in want.values()):
         raise Discard("original produces non-finite outputs at the save point")
 
+    # ---- the copies are independent objects: what happens to the original after the save point (further optimiser steps, a later
+    # load_state_dict - both write parameters and buffers IN PLACE) must not show in a snapshot taken before.  The original is not used
+    # after this point; every floating-point parameter and buffer of it is overwritten in place.
+    with torch.no_grad():
+        for t_ in list(src.parameters()) + list(src.buffers()):
+            if t_.is_floating_point() and t_.numel():
+                t_.mul_(0.5).add_(0.25)
+    # (a model may legitimately hold the user's data tensors as parameters - torch.nn.Parameter(x) shares x's storage, e.g. inducing
+    # points = training inputs: the data handed to the copies below is generated afresh)
+    data = make_data(entry, arch, seeds["data"])
+
     # ---- (b) pickle, (c) deepcopy ----------------------------------------------------------------------
     for mech in ("pickle", "deepcopy"):
         if mech not in saved:
@@ -1530,7 +1541,7 @@ RULE = ("case = (registry entry, architecture, three seeds, history, dst_warm). 
         "values, grids, active_dims, inducing points, variational parameters and random features. History before the save point: none / "
         "optimiser steps / eval-mode predictions (with or without autograd, with or without the likelihood) / both, ending in train or eval "
         "mode. Mechanisms per case: state_dict -> torch.save -> torch.load -> load_state_dict(strict=True) into the same recipe built with "
-        "another seed (observed first with its own values when dst_warm), pickle, deepcopy. Oracle: the original observed after the save "
+        "another seed (observed first with its own values when dst_warm), pickle, deepcopy. Oracle (the original is overwritten in place after the save point and its observation, so a copy sharing storage with it shows): the original observed after the save "
         "point (first eval prediction, training-mode output, objective with prior / added-loss terms, gradient of every parameter, second eval "
         "prediction + likelihood output); bitwise for pickle / deepcopy (first prediction after a deepcopy / load, where caches are rebuilt: 1e-8), 1e-12 for state_dict; training "
         "flags equal. Non-trivial: non-empty history, or a non-default prior / constraint, or a randomly initialised buffer / parameter; "
